@@ -331,5 +331,469 @@ Proof.
   - rewrite Etl, Nat2Z.inj_succ, Z.pow_succ_r by lia. reflexivity.
 Qed.
 
+(* ------------------------------------------------------------------------------------------ *)
+(** * Resizing: resize_once, grow_loop, presize_loop, treeify_bin, add_count *)
+
+Lemma WFT_tlen_pow2 t : WFT khash t -> exists j : nat, (j <= 30)%nat /\ tlen t = 2 ^ Z.of_nat j.
+Proof. intros ((j & Hj & E) & _). exists j. split; [exact Hj|apply tlen_pow2; exact E]. Qed.
+
+(* s' has the same content as s in a table at least as long; the counter is untouched *)
+Definition grows (s s' : st) : Prop :=
+  WFS s' /\ Permutation (nodes s) (nodes s') /\ cnt s' = cnt s /\ tlen_s s <= tlen_s s' /\
+  (sized s -> sized s').
+
+Lemma grows_refl s : WFS s -> grows s s.
+Proof. intros H. split; [exact H|]. split; [reflexivity|]. split; [reflexivity|]. split; [lia|tauto]. Qed.
+
+Lemma grows_trans a b c : grows a b -> grows b c -> grows a c.
+Proof.
+  intros (A1 & A2 & A3 & A4 & A5) (B1 & B2 & B3 & B4 & B5).
+  split; [exact B1|]. split; [etransitivity; eassumption|]. split; [congruence|]. split; [lia|tauto].
+Qed.
+
+Lemma grows_lookup s s' k : WFS s -> grows s s' -> lookup (nodes s') k = lookup (nodes s) k.
+Proof.
+  intros H (_ & Hp & _). symmetry. apply lookup_perm; [apply WFS_nodup; exact H|exact Hp].
+Qed.
+
+Lemma grows_length s s' : grows s s' -> length (nodes s') = length (nodes s).
+Proof. intros (_ & Hp & _). symmetry. apply Permutation_length. exact Hp. Qed.
+
+Lemma resize_once_grows s t :
+  WFS s -> tbl s = Some t -> tlen t < MAXIMUM_CAPACITY -> grows s (resize_once s).
+Proof.
+  intros H Et Hlt. unfold resize_once. rewrite Et. unfold WFS in H. rewrite Et in H.
+  destruct H as [Ht Hsc]. destruct (transfer_all_ok t Ht Hlt) as (T1 & T2 & T3).
+  destruct (WFT_tlen_pow2 t Ht) as (j & Hj & Ej).
+  assert (Hj' : (j < 30)%nat).
+  { rewrite MAXIMUM_CAPACITY_eq, Ej in Hlt. change 30 with (Z.of_nat 30) in Hlt.
+    apply Z.pow_lt_mono_r_iff in Hlt; lia. }
+  unfold grows, WFS, sized, tlen_s, nodes. rewrite Et. cbn [tbl sc cnt].
+  split; [|split; [exact T2|split; [reflexivity|split]]].
+  - split; [exact T1|]. rewrite T3, Ej. apply next_threshold_pow2. exact Hj'.
+  - pose proof (WFT_len_bounds khash t Ht). lia.
+  - rewrite Ej, next_threshold_pow2 by exact Hj'. rewrite Hsc, Ej.
+    pose proof (lf_double (2 ^ Z.of_nat j)). pose proof (pow2_pos j). rewrite Ej in Hlt. lia.
+Qed.
+
+Lemma grow_loop_grows fuel : forall s c, WFS s -> grows s (grow_loop fuel s c).
+Proof.
+  induction fuel as [|fuel IH]; intros s c H; cbn [grow_loop]; [apply grows_refl; exact H|].
+  destruct (add_count_below c (sc s)); [apply grows_refl; exact H|].
+  destruct (tbl s) as [t|] eqn:Et; [|apply grows_refl; exact H].
+  destruct (add_count_full (tlen t)) eqn:Ef; [apply grows_refl; exact H|].
+  unfold add_count_full in Ef. rewrite Z.geb_leb in Ef; apply Z.leb_gt in Ef.
+  pose proof (resize_once_grows s t H Et Ef) as G.
+  eapply grows_trans; [exact G|]. apply IH. apply G.
+Qed.
+
+Lemma grow_loop_below fuel s c : add_count_below c (sc s) = true -> grow_loop fuel s c = s.
+Proof. intros H. destruct fuel; cbn [grow_loop]; [reflexivity|]. rewrite H. reflexivity. Qed.
+
+Lemma grow_loop_full fuel s c t :
+  tbl s = Some t -> MAXIMUM_CAPACITY <= tlen t -> grow_loop fuel s c = s.
+Proof.
+  intros Et H. destruct fuel; cbn [grow_loop]; [reflexivity|].
+  destruct (add_count_below c (sc s)); [reflexivity|]. rewrite Et.
+  unfold add_count_full. destruct (Z.geb_spec (tlen t) MAXIMUM_CAPACITY); [reflexivity|lia].
+Qed.
+
+(* with enough fuel the loop ends below the threshold or at the maximum length *)
+Lemma grow_loop_sized fuel : forall s t,
+  WFS s -> tbl s = Some t -> MAXIMUM_CAPACITY < tlen t * 2 ^ Z.of_nat fuel ->
+  sized (grow_loop fuel s (cnt s)).
+Proof.
+  induction fuel as [|fuel IH]; intros s t H Et Hf; cbn [grow_loop].
+  - exfalso. unfold WFS in H. rewrite Et in H. destruct H as [Ht _].
+    pose proof (WFT_len_bounds khash t Ht). change (2 ^ Z.of_nat 0) with 1 in Hf. lia.
+  - destruct (add_count_below (cnt s) (sc s)) eqn:Eb.
+    { unfold add_count_below in Eb. apply Z.ltb_lt in Eb. unfold sized. rewrite Et. left; exact Eb. }
+    rewrite Et. destruct (add_count_full (tlen t)) eqn:Ef.
+    { unfold add_count_full in Ef. apply Z.geb_le in Ef. unfold sized. rewrite Et. right; exact Ef. }
+    unfold add_count_full in Ef. rewrite Z.geb_leb in Ef; apply Z.leb_gt in Ef.
+    pose proof (resize_once_grows s t H Et Ef) as G.
+    assert (Er : resize_once s = mkSt (Some (transfer_all t)) (next_threshold (tlen t)) (cnt s)).
+    { unfold resize_once. rewrite Et. reflexivity. }
+    replace (cnt (resize_once s)) with (cnt (resize_once s)) by reflexivity.
+    apply (IH (resize_once s) (transfer_all t)).
+    + apply G.
+    + rewrite Er. reflexivity.
+    + unfold WFS in H. rewrite Et in H. destruct H as [Ht _].
+      destruct (transfer_all_ok t Ht Ef) as (_ & _ & T3). rewrite T3.
+      rewrite Nat2Z.inj_succ, Z.pow_succ_r in Hf by lia. lia.
+Qed.
+
+Lemma WFS_empty (j : nat) c0 :
+  (j <= 30)%nat ->
+  WFS (mkSt (Some (empty_table (2 ^ Z.of_nat j))) (load_factor (2 ^ Z.of_nat j)) c0).
+Proof.
+  intros Hj. unfold WFS. cbn [tbl sc]. split; [apply WFT_empty; exact Hj|].
+  rewrite tlen_empty_table; [reflexivity|]. pose proof (pow2_pos j). lia.
+Qed.
+
+Lemma presize_loop_grows fuel : forall c s,
+  (exists j : nat, (j <= 30)%nat /\ c = 2 ^ Z.of_nat j) -> WFS s -> grows s (presize_loop fuel c s).
+Proof.
+  induction fuel as [|fuel IH]; intros c s Hc H; cbn [presize_loop]; [apply grows_refl; exact H|].
+  destruct (try_presize_busy (sc s)); [apply grows_refl; exact H|].
+  destruct (tbl s) as [[|b t]|] eqn:Et.
+  - exfalso. unfold WFS in H. rewrite Et in H. destruct H as [Ht _].
+    pose proof (WFT_len_pos khash _ Ht). cbn [length] in *. lia.
+  - destruct (try_presize_stop c (sc s) (tlen (b :: t))) eqn:Es; [apply grows_refl; exact H|].
+    unfold try_presize_stop in Es. apply orb_false_iff in Es as [_ Es].
+    rewrite Z.geb_leb in Es; apply Z.leb_gt in Es.
+    pose proof (resize_once_grows s (b :: t) H Et Es) as G.
+    eapply grows_trans; [exact G|]. apply IH; [exact Hc|apply G].
+  - assert (Hn : exists j : nat, (j <= 30)%nat /\ try_presize_new_capacity c (sc s) = 2 ^ Z.of_nat j).
+    { unfold try_presize_new_capacity. destruct Hc as (j & Hj & ->).
+      unfold WFS in H. rewrite Et in H. destruct H as [->|(j' & Hj' & ->)].
+      - exists j. split; [exact Hj|]. pose proof (pow2_pos j). lia.
+      - exists (Nat.max j j'). split; [lia|apply pow2_max]. }
+    destruct Hn as (j & Hj & En). rewrite En. unfold try_presize_threshold.
+    pose proof (WFS_empty j (cnt s) Hj) as H1.
+    eapply grows_trans; [|apply IH; [exact Hc|exact H1]].
+    split; [exact H1|]. unfold nodes, tlen_s, sized. rewrite Et. cbn [tbl sc cnt].
+    rewrite nodes_empty_table. split; [constructor|]. split; [reflexivity|]. split.
+    + rewrite tlen_empty_table; pose proof (pow2_pos j); lia.
+    + intros ->. left. pose proof (lf_pos (2 ^ Z.of_nat j) (pow2_pos j)). lia.
+Qed.
+
+Lemma try_presize_grows s size : WFS s -> grows s (try_presize s size).
+Proof. intros H. unfold try_presize. apply presize_loop_grows; [apply capacity_round_pow2|exact H]. Qed.
+
+Lemma get_bin_lt t i : get_bin t i <> BNull -> (i < length t)%nat.
+Proof.
+  intros H. destruct (Nat.lt_ge_cases i (length t)) as [Hl|Hg]; [exact Hl|].
+  exfalso. apply H. unfold get_bin. apply nth_overflow. exact Hg.
+Qed.
+
+Lemma treeify_bin_grows s i : WFS s -> grows s (treeify_bin s i).
+Proof.
+  intros H. unfold treeify_bin. destruct (tbl s) as [t|] eqn:Et; [|apply grows_refl; exact H].
+  destruct (treeify_resizes (tlen t)); [apply try_presize_grows; exact H|].
+  destruct (get_bin t i) as [|l| |] eqn:Eb; try (apply grows_refl; exact H).
+  assert (Hi : (i < length t)%nat) by (apply get_bin_lt; congruence).
+  pose proof H as H0. unfold WFS in H0. rewrite Et in H0. destruct H0 as [Ht Hsc].
+  pose proof (WFT_bin_ok khash t i Ht Hi) as Hok. rewrite Eb in Hok. destruct Hok as [Hne Hp].
+  pose proof (WFT_rest_nodup khash t i Ht Hi) as Hd. rewrite Eb in Hd. cbn [bin_nodes] in Hd.
+  assert (Hd1 : NoDup (keys l)). { rewrite keys_app in Hd. apply NoDup_app_iff in Hd. apply Hd. }
+  assert (Ht' : WFT khash (set_bin t i (BTree (tb_new l)))).
+  { apply WFT_set_bin; [exact Ht|exact Hi| |exact Hd]. apply tb_new_ok; assumption. }
+  unfold grows, WFS, nodes, tlen_s, sized. rewrite Et. cbn [tbl sc cnt].
+  rewrite tlen_set_bin by exact Hi.
+  split; [split; assumption|]. split.
+  - etransitivity; [apply nodes_get_perm; exact Hi|]. rewrite Eb.
+    apply Permutation_sym. apply (nodes_set_perm t i (BTree (tb_new l))).
+  - split; [reflexivity|]. split; [lia|tauto].
+Qed.
+
+Lemma add_count_grows s d hint :
+  WFS s ->
+  let s' := add_count s d hint in
+  WFS s' /\ Permutation (nodes s) (nodes s') /\ cnt s' = cnt s + d /\ tlen_s s <= tlen_s s'.
+Proof.
+  intros H. cbv zeta. unfold add_count. set (s1 := mkSt (tbl s) (sc s) (add_count_stored (cnt s) d)).
+  assert (H1 : WFS s1) by exact H.
+  assert (E1 : cnt s1 = cnt s + d) by apply add_count_stored_eq.
+  destruct hint.
+  - destruct (grow_loop_grows 40 s1 (add_count_local (cnt s) d) H1) as (G1 & G2 & G3 & G4 & _).
+    split; [exact G1|]. split; [exact G2|]. split; [congruence|exact G4].
+  - split; [exact H1|]. split; [reflexivity|]. split; [exact E1|]. apply Z.le_refl.
+Qed.
+
+Lemma add_count_nohint_tbl s d : tbl (add_count s d false) = tbl s.
+Proof. reflexivity. Qed.
+
+Lemma add_count_sized_dec s d hint t :
+  WFS s -> tbl s = Some t -> d <= 0 -> sized s -> sized (add_count s d hint).
+Proof.
+  intros H Et Hd Hs. unfold add_count. set (s1 := mkSt (tbl s) (sc s) (add_count_stored (cnt s) d)).
+  assert (H1 : WFS s1) by exact H.
+  assert (Hs1 : sized s1).
+  { unfold sized in *. unfold s1. cbn [tbl sc cnt]. rewrite add_count_stored_eq.
+    rewrite Et in *. lia. }
+  destruct hint; [|exact Hs1]. apply (grow_loop_grows 40 s1 _ H1). exact Hs1.
+Qed.
+
+Lemma add_count_sized_inc s t : WFS s -> tbl s = Some t -> sized (add_count s 1 true).
+Proof.
+  intros H Et. unfold add_count. set (s1 := mkSt (tbl s) (sc s) (add_count_stored (cnt s) 1)).
+  assert (H1 : WFS s1) by exact H.
+  change (add_count_local (cnt s) 1) with (cnt s1).
+  apply (grow_loop_sized 40 s1 t H1 Et).
+  unfold WFS in H. rewrite Et in H. destruct H as [Ht _].
+  pose proof (WFT_len_bounds khash t Ht) as Hb. rewrite MAXIMUM_CAPACITY_eq in *.
+  change (2 ^ Z.of_nat 40) with 1099511627776. change (2 ^ 30) with 1073741824 in *. lia.
+Qed.
+
+(* ------------------------------------------------------------------------------------------ *)
+(** * Updating one bin: effect on the node listing *)
+
+Lemma bin_ctx t i :
+  WFT khash t -> (i < length t)%nat ->
+  NoDup (keys (bin_nodes (get_bin t i) ++ rest_of t i)) /\
+  hk_ok khash (bin_nodes (get_bin t i)) /\
+  (forall k', lookup (flat_map bin_nodes t) k' = lookup (bin_nodes (get_bin t i) ++ rest_of t i) k') /\
+  length (flat_map bin_nodes t) = length (bin_nodes (get_bin t i) ++ rest_of t i).
+Proof.
+  intros H Hi. split; [apply (WFT_rest_nodup khash); assumption|].
+  split; [apply (WFT_bin_hk_ok khash); assumption|]. split.
+  - intros k'. apply lookup_perm; [apply H|apply nodes_get_perm; exact Hi].
+  - apply Permutation_length, nodes_get_perm. exact Hi.
+Qed.
+
+Lemma bin_replace t i b' :
+  WFT khash t -> (i < length t)%nat -> bin_ok khash (tlen t) i b' ->
+  NoDup (keys (bin_nodes b' ++ rest_of t i)) ->
+  WFT khash (set_bin t i b') /\
+  (forall k', lookup (flat_map bin_nodes (set_bin t i b')) k' = lookup (bin_nodes b' ++ rest_of t i) k') /\
+  length (flat_map bin_nodes (set_bin t i b')) = length (bin_nodes b' ++ rest_of t i).
+Proof.
+  intros H Hi Hok Hd. pose proof (WFT_set_bin khash t i b' H Hi Hok Hd) as H'.
+  split; [exact H'|]. split.
+  - intros k'. apply lookup_perm; [apply H'|apply nodes_set_perm].
+  - apply Permutation_length, nodes_set_perm.
+Qed.
+
+Lemma eff_set_app X X' R k v :
+  (forall k', lookup X' k' = if (k' =? k)%N then option_map (setv v) (lookup X k) else lookup X k') ->
+  lookup X k <> None ->
+  forall k', lookup (X' ++ R) k' =
+             if (k' =? k)%N then option_map (setv v) (lookup (X ++ R) k) else lookup (X ++ R) k'.
+Proof.
+  intros H Hf k'. rewrite !lookup_app, H. destruct (k' =? k)%N; [|reflexivity].
+  destruct (lookup X k); [reflexivity|congruence].
+Qed.
+
+Lemma eff_del_app X X' R k :
+  NoDup (keys (X ++ R)) -> lookup X k <> None ->
+  (forall k', lookup X' k' = if (k' =? k)%N then None else lookup X k') ->
+  forall k', lookup (X' ++ R) k' = if (k' =? k)%N then None else lookup (X ++ R) k'.
+Proof.
+  intros Hd Hf H k'. rewrite !lookup_app, H. destruct (N.eqb_spec k' k) as [->|Hne]; [|reflexivity].
+  apply lookup_none_keys. rewrite keys_app in Hd. apply NoDup_app_iff in Hd as (_ & _ & Hd).
+  apply Hd. destruct (lookup X k) as [n|] eqn:E; [|congruence].
+  apply lookup_some in E as [E1 <-]. apply in_map. exact E1.
+Qed.
+
+Lemma nodup_sub X X' R :
+  NoDup (keys (X ++ R)) -> NoDup (keys X') -> incl (keys X') (keys X) -> NoDup (keys (X' ++ R)).
+Proof.
+  rewrite !keys_app, !NoDup_app_iff. intros (H1 & H2 & H3) Hd Hi.
+  split; [exact Hd|]. split; [exact H2|]. intros x Hx. apply H3. apply Hi. exact Hx.
+Qed.
+
+Lemma eff_add_perm L L' e :
+  NoDup (keys L) -> lookup L (nk e) = None -> Permutation L' (e :: L) ->
+  NoDup (keys L') /\
+  forall k', lookup L' k' = if (k' =? nk e)%N then Some e else lookup L k'.
+Proof.
+  intros Hd Hn Hp. assert (Hd1 : NoDup (keys (e :: L))).
+  { cbn [keys map]. constructor; [apply lookup_none_keys; exact Hn|exact Hd]. }
+  assert (Hd2 : NoDup (keys L')).
+  { eapply Permutation_NoDup; [apply Permutation_sym, keys_perm; exact Hp|exact Hd1]. }
+  split; [exact Hd2|]. intros k'. rewrite (lookup_perm L' (e :: L) k' Hd2 Hp), lookup_cons, N.eqb_sym.
+  reflexivity.
+Qed.
+
+(* ---------- bin_set, bin_remove on a well-formed bin ---------- *)
+
+Lemma placed_same len i x y : nh x = nh y -> nk x = nk y -> placed khash len i y -> placed khash len i x.
+Proof. unfold placed. intros -> ->. trivial. Qed.
+
+Lemma lb_set_placed len i l h k v :
+  (forall n, In n l -> placed khash len i n) -> forall n, In n (lb_set l h k v) -> placed khash len i n.
+Proof.
+  intros H n Hn. apply lb_set_in in Hn as (y & Hy & E1 & E2).
+  apply (placed_same len i n y E1 E2). apply H; exact Hy.
+Qed.
+
+Lemma bin_set_ok len i b k v :
+  bin_ok khash len i b ->
+  bin_ok khash len i (bin_set b (khash k) k v) /\
+  bin_nodes (bin_set b (khash k) k v) = lb_set (bin_nodes b) (khash k) k v.
+Proof.
+  destruct b as [|l|t|]; cbn [bin_ok bin_set bin_nodes lb_set].
+  - tauto.
+  - intros [Hne Hp]. split; [|reflexivity]. split; [|apply lb_set_placed; exact Hp].
+    intros E. apply Hne. apply length_zero_iff_nil. rewrite <- (lb_set_length l (khash k) k v), E. reflexivity.
+  - intros [Ht Hp]. split; [|reflexivity]. split; [apply Hyp_set; exact Ht|].
+    cbn [tb_set tord]. apply lb_set_placed; exact Hp.
+  - tauto.
+Qed.
+
+Lemma bin_remove_ok len i b k :
+  bin_ok khash len i b -> lookup (bin_nodes b) k <> None ->
+  bin_ok khash len i (bin_remove b (khash k) k) /\
+  bin_nodes (bin_remove b (khash k) k) = lb_remove (bin_nodes b) (khash k) k.
+Proof.
+  intros Hok Hf. pose proof (bin_ok_hk _ _ _ Hok) as Hk.
+  destruct b as [|l|t|]; cbn [bin_ok bin_remove bin_nodes lb_remove] in *.
+  - tauto.
+  - destruct Hok as [Hne Hp]. rewrite bin_nodes_of_list. split; [|reflexivity].
+    apply of_list_ok. intros n Hn. apply Hp. eapply lb_remove_in; exact Hn.
+  - destruct Hok as [Ht Hp]. destruct (tb_remove t (khash k) k) as [t' u] eqn:E.
+    assert (Eo : tord t' = lb_remove (tord t) (khash k) k).
+    { unfold tb_remove in E. destruct (lb_remove (tord t) (khash k) k) as [|x r] eqn:Er.
+      - injection E as <- <-. reflexivity.
+      - destruct (too_small (troot t)); injection E as <- <-; reflexivity. }
+    assert (Hp' : forall n, In n (tord t') -> placed khash len i n).
+    { intros n Hn. rewrite Eo in Hn. apply Hp. eapply lb_remove_in; exact Hn. }
+    destruct u.
+    + rewrite bin_nodes_of_list. split; [|exact Eo]. apply of_list_ok. exact Hp'.
+    + cbn [bin_ok bin_nodes]. split; [|exact Eo]. split; [|exact Hp'].
+      apply (Hyp_remove t (khash k) k t' Ht); [|exact E]. rewrite lb_find_lookup by exact Hk. exact Hf.
+  - tauto.
+Qed.
+
+(* ---------- finishing lemmas: from one replaced bin to the whole state ---------- *)
+
+Lemma WFS_some s t : tbl s = Some t -> WFS s <-> WFT khash t /\ sc s = load_factor (tlen t).
+Proof. intros E. unfold WFS. rewrite E. tauto. Qed.
+
+(* a value was replaced in bin i; afterwards the table may have grown *)
+Lemma set_finish s t i b' k v n s2 :
+  WF s -> tbl s = Some t -> (i < length t)%nat ->
+  lookup (bin_nodes (get_bin t i)) k = Some n ->
+  bin_ok khash (tlen t) i b' ->
+  bin_nodes b' = lb_set (bin_nodes (get_bin t i)) (khash k) k v ->
+  (WFS (mkSt (Some (set_bin t i b')) (sc s) (cnt s)) ->
+   grows (mkSt (Some (set_bin t i b')) (sc s) (cnt s)) s2) ->
+  WF s2 /\
+  (forall k', lookup (nodes s2) k' = if (k' =? k)%N then Some (setv v n) else lookup (nodes s) k') /\
+  lookup (nodes s) k = Some n /\
+  tlen_s s <= tlen_s s2 /\ (sized s -> sized s2).
+Proof.
+  intros Hwf Et Hi Hf Hok Hn Hg. apply WF_iff in Hwf as [Hs Hc].
+  pose proof (proj1 (WFS_some s t Et) Hs) as [Ht Hsc].
+  destruct (bin_ctx t i Ht Hi) as (Hd & Hk & Hl & Hlen).
+  set (X := bin_nodes (get_bin t i)) in *. set (R := rest_of t i) in *.
+  assert (Hd' : NoDup (keys (bin_nodes b' ++ R))).
+  { rewrite keys_app, Hn, lb_set_keys, <- keys_app. exact Hd. }
+  destruct (bin_replace t i b' Ht Hi Hok Hd') as (Ht' & Hl' & Hlen'). fold R in Hl', Hlen'.
+  set (s1 := mkSt (Some (set_bin t i b')) (sc s) (cnt s)) in *.
+  assert (Hs1 : WFS s1).
+  { unfold WFS, s1. cbn [tbl sc]. rewrite tlen_set_bin by exact Hi. split; assumption. }
+  specialize (Hg Hs1).
+  assert (Hfk : lookup (nodes s) k = Some n).
+  { unfold nodes. rewrite Et, Hl, lookup_app. fold X. rewrite Hf. reflexivity. }
+  assert (Hlk : forall k', lookup (nodes s1) k' =
+                          if (k' =? k)%N then Some (setv v n) else lookup (nodes s) k').
+  { intros k'. unfold nodes at 1. unfold s1 at 1. cbn [tbl]. rewrite Hl'.
+    rewrite (eff_set_app X (bin_nodes b') R k v).
+    - unfold nodes. rewrite Et, !Hl. fold X R. rewrite lookup_app, Hf. reflexivity.
+    - intros k''. rewrite Hn. apply lb_set_lookup. exact Hk.
+    - rewrite Hf. discriminate. }
+  assert (Hlen1 : length (nodes s1) = length (nodes s)).
+  { unfold nodes, s1. cbn [tbl]. rewrite Et, Hlen', Hlen, !app_length, Hn, lb_set_length. reflexivity. }
+  split; [|split; [|split; [exact Hfk|split]]].
+  - apply WF_iff. split; [apply Hg|]. rewrite (grows_length s1 s2 Hg), Hlen1.
+    destruct Hg as (_ & _ & -> & _). exact Hc.
+  - intros k'. rewrite (grows_lookup s1 s2 k' Hs1 Hg). apply Hlk.
+  - destruct Hg as (_ & _ & _ & G & _). unfold tlen_s in *. unfold s1 in G. cbn [tbl] in G.
+    rewrite tlen_set_bin in G by exact Hi. rewrite Et. exact G.
+  - intros Hz. apply Hg. unfold sized, s1 in *. cbn [tbl sc cnt]. rewrite Et in Hz.
+    rewrite tlen_set_bin by exact Hi. exact Hz.
+Qed.
+
+(* a fresh node was added to bin i; then the table may grow, then the counter is bumped *)
+Lemma add_finish s t i b' e s2 :
+  WF s -> tbl s = Some t -> (i < length t)%nat ->
+  lookup (nodes s) (nk e) = None ->
+  bin_ok khash (tlen t) i b' ->
+  Permutation (bin_nodes b') (e :: bin_nodes (get_bin t i)) ->
+  (WFS (mkSt (Some (set_bin t i b')) (sc s) (cnt s)) ->
+   grows (mkSt (Some (set_bin t i b')) (sc s) (cnt s)) s2) ->
+  let s3 := add_count s2 1 true in
+  WF s3 /\
+  (forall k', lookup (nodes s3) k' = if (k' =? nk e)%N then Some e else lookup (nodes s) k') /\
+  tlen_s s <= tlen_s s3 /\ sized s3.
+Proof.
+  intros Hwf Et Hi Hf Hok Hp Hg. apply WF_iff in Hwf as [Hs Hc].
+  pose proof (proj1 (WFS_some s t Et) Hs) as [Ht Hsc].
+  destruct (bin_ctx t i Ht Hi) as (Hd & Hk & Hl & Hlen).
+  set (X := bin_nodes (get_bin t i)) in *. set (R := rest_of t i) in *.
+  assert (HfL : lookup (X ++ R) (nk e) = None).
+  { rewrite <- Hl. unfold nodes in Hf. rewrite Et in Hf. exact Hf. }
+  assert (Hp' : Permutation (bin_nodes b' ++ R) (e :: X ++ R)).
+  { change (e :: X ++ R) with ((e :: X) ++ R). apply Permutation_app_tail. exact Hp. }
+  destruct (eff_add_perm (X ++ R) (bin_nodes b' ++ R) e Hd HfL Hp') as [Hd' Hl1].
+  destruct (bin_replace t i b' Ht Hi Hok Hd') as (Ht' & Hl' & Hlen'). fold R in Hl', Hlen'.
+  set (s1 := mkSt (Some (set_bin t i b')) (sc s) (cnt s)) in *.
+  assert (Hs1 : WFS s1).
+  { unfold WFS, s1. cbn [tbl sc]. rewrite tlen_set_bin by exact Hi. split; assumption. }
+  specialize (Hg Hs1).
+  assert (Hlk : forall k', lookup (nodes s1) k' =
+                          if (k' =? nk e)%N then Some e else lookup (nodes s) k').
+  { intros k'. unfold nodes at 1. unfold s1 at 1. cbn [tbl]. rewrite Hl', Hl1.
+    unfold nodes. rewrite Et, Hl. reflexivity. }
+  assert (Hlen1 : length (nodes s1) = S (length (nodes s))).
+  { unfold nodes, s1. cbn [tbl]. rewrite Et, Hlen', Hlen, (Permutation_length Hp'). reflexivity. }
+  assert (Hs2 : WFS s2) by apply Hg.
+  cbv zeta. destruct (add_count_grows s2 1 true Hs2) as (A1 & A2 & A3 & A4).
+  split; [|split; [|split]].
+  - apply WF_iff. split; [exact A1|]. rewrite A3, <- (Permutation_length A2), (grows_length s1 s2 Hg), Hlen1.
+    destruct Hg as (_ & _ & -> & _). unfold s1. cbn [cnt]. lia.
+  - intros k'. rewrite <- (lookup_perm (nodes s2) _ k' (WFS_nodup s2 Hs2) A2).
+    rewrite (grows_lookup s1 s2 k' Hs1 Hg). apply Hlk.
+  - destruct Hg as (_ & _ & _ & G & _). unfold tlen_s in G at 1. unfold s1 in G. cbn [tbl] in G.
+    rewrite tlen_set_bin in G by exact Hi. unfold tlen_s at 1. rewrite Et. lia.
+  - destruct (tbl s2) as [t2|] eqn:Et2.
+    + apply (add_count_sized_inc s2 t2 Hs2 Et2).
+    + exfalso. destruct Hg as (_ & _ & _ & G & _). unfold tlen_s in G. rewrite Et2 in G.
+      unfold s1 in G. cbn [tbl] in G. rewrite tlen_set_bin in G by exact Hi.
+      pose proof (WFT_len_bounds khash t Ht). lia.
+Qed.
+
+(* the node with key k was removed from bin i, then the counter is decremented *)
+Lemma del_finish s t i b' k n hint :
+  WF s -> tbl s = Some t -> (i < length t)%nat ->
+  lookup (bin_nodes (get_bin t i)) k = Some n ->
+  bin_ok khash (tlen t) i b' ->
+  bin_nodes b' = lb_remove (bin_nodes (get_bin t i)) (khash k) k ->
+  let s2 := add_count (mkSt (Some (set_bin t i b')) (sc s) (cnt s)) (-1) hint in
+  WF s2 /\
+  (forall k', lookup (nodes s2) k' = if (k' =? k)%N then None else lookup (nodes s) k') /\
+  lookup (nodes s) k = Some n /\
+  tlen_s s <= tlen_s s2 /\ (sized s -> sized s2) /\ (hint = false -> tlen_s s2 = tlen_s s).
+Proof.
+  intros Hwf Et Hi Hf Hok Hn. apply WF_iff in Hwf as [Hs Hc].
+  pose proof (proj1 (WFS_some s t Et) Hs) as [Ht Hsc].
+  destruct (bin_ctx t i Ht Hi) as (Hd & Hk & Hl & Hlen).
+  set (X := bin_nodes (get_bin t i)) in *. set (R := rest_of t i) in *.
+  assert (HdX : NoDup (keys X)). { rewrite keys_app in Hd. apply NoDup_app_iff in Hd. apply Hd. }
+  assert (Hd' : NoDup (keys (bin_nodes b' ++ R))).
+  { apply (nodup_sub X); [exact Hd|rewrite Hn; apply lb_remove_nodup; exact HdX|].
+    intros x Hx. rewrite Hn in Hx. apply in_map_iff in Hx as (y & <- & Hy). apply in_map.
+    eapply lb_remove_in; exact Hy. }
+  destruct (bin_replace t i b' Ht Hi Hok Hd') as (Ht' & Hl' & Hlen'). fold R in Hl', Hlen'.
+  set (s1 := mkSt (Some (set_bin t i b')) (sc s) (cnt s)) in *.
+  assert (Hs1 : WFS s1).
+  { unfold WFS, s1. cbn [tbl sc]. rewrite tlen_set_bin by exact Hi. split; assumption. }
+  assert (Hfk : lookup (nodes s) k = Some n).
+  { unfold nodes. rewrite Et, Hl, lookup_app. fold X. rewrite Hf. reflexivity. }
+  assert (Hlk : forall k', lookup (nodes s1) k' = if (k' =? k)%N then None else lookup (nodes s) k').
+  { intros k'. unfold nodes at 1. unfold s1 at 1. cbn [tbl]. rewrite Hl'.
+    rewrite (eff_del_app X (bin_nodes b') R k).
+    - unfold nodes. rewrite Et, Hl. reflexivity.
+    - exact Hd.
+    - rewrite Hf. discriminate.
+    - intros k''. rewrite Hn. apply lb_remove_lookup; assumption. }
+  assert (Hlen1 : S (length (nodes s1)) = length (nodes s)).
+  { unfold nodes, s1. cbn [tbl]. rewrite Et, Hlen', Hlen, !app_length, Hn.
+    rewrite <- (lb_remove_length X (khash k) k); [reflexivity|].
+    rewrite lb_find_lookup by exact Hk. rewrite Hf. discriminate. }
+  cbv zeta. destruct (add_count_grows s1 (-1) hint Hs1) as (A1 & A2 & A3 & A4).
+  split; [|split; [|split; [exact Hfk|split; [|split]]]].
+  - apply WF_iff. split; [exact A1|]. rewrite A3, <- (Permutation_length A2). unfold s1 at 1. cbn [cnt]. lia.
+  - intros k'. rewrite <- (lookup_perm (nodes s1) _ k' (WFS_nodup s1 Hs1) A2). apply Hlk.
+  - unfold tlen_s in A4 at 1. unfold s1 in A4 at 1. cbn [tbl] in A4.
+    rewrite tlen_set_bin in A4 by exact Hi. unfold tlen_s at 1. rewrite Et. exact A4.
+  - intros Hz. apply (add_count_sized_dec s1 (-1) hint (set_bin t i b') Hs1 eq_refl); [lia|].
+    unfold sized, s1 in *. cbn [tbl sc cnt]. rewrite Et in Hz. rewrite tlen_set_bin by exact Hi. exact Hz.
+  - intros ->. unfold tlen_s. rewrite add_count_nohint_tbl. unfold s1. cbn [tbl]. rewrite Et.
+    apply tlen_set_bin. exact Hi.
+Qed.
+
 End TreeFacts.
 End WithHash.
